@@ -25,6 +25,11 @@ type fileC15 struct {
 	Data gen.Recipe `json:"data,omitempty"`
 	Mode uint32     `json:"mode"`
 	Opt  string     `json:"opt,omitempty"` // xz-utils option for xzutils kinds
+	// Streams > 1 (xz kinds): the member is what `xz -c part1 part2 > f` or
+	// `gxz -c part1 part2 > f` produces: several concatenated streams, Pad*4
+	// zero bytes of stream padding between them
+	Streams int `json:"streams,omitempty"`
+	Pad     int `json:"pad,omitempty"`
 }
 
 // flagC15 is one option in structured form.
@@ -233,6 +238,10 @@ func drawC15(t *rapid.T) caseC15 {
 		}
 		f.Data = gen.DrawRecipe(t, 3, 250000, classes...)
 		f.Mode = rapid.SampledFrom([]uint32{0644, 0600, 0640, 0755, 0444, 0666, 0400}).Draw(t, "mode")
+		if (f.Kind == "xzutils_xz" || f.Kind == "gxz_xz") && rapid.IntRange(0, 3).Draw(t, "multistream") == 0 {
+			f.Streams = rapid.IntRange(2, 3).Draw(t, "nstreams")
+			f.Pad = rapid.SampledFrom([]int{0, 0, 1, 3}).Draw(t, "streampad")
+		}
 		if f.Kind == "xzutils_xz" {
 			f.Opt = rapid.SampledFrom([]string{"-0", "-6", "-9e", "--check=crc32", "--check=sha256", "--check=none", "--block-size=4096", "--lzma2=lc=0,lp=2,pb=1,dict=4KiB"}).Draw(t, "xzopt")
 		}
@@ -418,6 +427,27 @@ func sniff(b []byte) string {
 
 // buildDir creates the directory and the model of it. It returns false if a
 // needed tool is missing.
+// compressParts compresses data as f.Streams concatenated streams.
+func compressParts(f fileC15, data []byte, one func(part []byte) ([]byte, bool)) ([]byte, bool) {
+	k := f.Streams
+	if k < 1 {
+		k = 1
+	}
+	var out []byte
+	for i := 0; i < k; i++ {
+		part := data[len(data)*i/k : len(data)*(i+1)/k]
+		c, ok := one(part)
+		if !ok {
+			return nil, false
+		}
+		if i > 0 {
+			out = append(out, make([]byte, 4*f.Pad)...)
+		}
+		out = append(out, c...)
+	}
+	return out, true
+}
+
 func buildDir(dir string, files []fileC15, gxz string, rec *ev.Rec) (map[string]*node, bool) {
 	model := map[string]*node{}
 	for _, f := range files {
@@ -441,10 +471,19 @@ func buildDir(dir string, files []fileC15, gxz string, rec *ev.Rec) (map[string]
 			if strings.HasSuffix(f.Kind, "lzma") {
 				format = "lzma"
 			}
-			out, _, code, err := runTool(dir, gxz, []string{"-c", "-F", format}, data)
-			if err != nil || code != 0 {
-				rec.Incomplete(fmt.Sprintf("cannot prepare %s member with gxz: %v code %d", f.Kind, err, code))
+			out, ok := compressParts(f, data, func(part []byte) ([]byte, bool) {
+				o, _, code, err := runTool(dir, gxz, []string{"-c", "-F", format}, part)
+				if err != nil || code != 0 {
+					rec.Incomplete(fmt.Sprintf("cannot prepare %s member with gxz: %v code %d", f.Kind, err, code))
+					return nil, false
+				}
+				return o, true
+			})
+			if !ok {
 				return nil, false
+			}
+			if f.Streams > 1 {
+				rec.Class("member_multi_stream_gxz")
 			}
 			content = out
 			n.comp, n.inner = format, &node{raw: data, mode: f.Mode}
@@ -469,10 +508,19 @@ func buildDir(dir string, files []fileC15, gxz string, rec *ev.Rec) (map[string]
 			if f.Kind == "xzutils_lzma" {
 				format = "lzma"
 			}
-			out, _, code, err := runTool(dir, "xz", []string{"-c", "-T1", "--format=" + format, f.Opt}, data)
-			if err != nil || code != 0 {
-				rec.Class("xz-utils_missing")
+			out, ok := compressParts(f, data, func(part []byte) ([]byte, bool) {
+				o, _, code, err := runTool(dir, "xz", []string{"-c", "-T1", "--format=" + format, f.Opt}, part)
+				if err != nil || code != 0 {
+					rec.Class("xz-utils_missing")
+					return nil, false
+				}
+				return o, true
+			})
+			if !ok {
 				return nil, false
+			}
+			if f.Streams > 1 {
+				rec.Class("member_multi_stream_xzutils")
 			}
 			content = out
 			n.comp, n.inner = format, &node{raw: data, mode: f.Mode}
